@@ -281,7 +281,9 @@ pub enum Op {
     Auto,
     Check { chan: Option<String>, resp: Option<Resp> },
     /// `dl`: None = download callback fails, Some(bytes) = the (compressed) body served.
-    Update { chan: Option<String>, resp: Option<Resp>, dl: Option<Vec<u8>> },
+    /// `evf`: bit i set = the i-th event post of this call fails (the library logs that and carries on, so the model
+    /// does not need to know; the bit travels in the op line so that a replay repeats it)
+    Update { chan: Option<String>, resp: Option<Resp>, dl: Option<Vec<u8>>, evf: u8 },
     Dmg(Damage),
     /// A concurrent episode: `upd` (an Update) runs on one thread, `bops` (launch reports, queries,
     /// checks) one after the other on a second thread; `sched[i]` says which thread is granted the
@@ -327,15 +329,16 @@ pub fn render_op(op: &Op, stream: Option<&[u8]>) -> String {
         Op::CurN => "curn".into(),
         Op::Auto => "auto".into(),
         Op::Check { chan, resp } => format!("check ch={} r={}", enc_opt(chan), render_resp(resp)),
-        Op::Update { chan, resp, dl } => format!(
-            "update ch={} r={} d={}",
+        Op::Update { chan, resp, dl, evf } => format!(
+            "update ch={} r={} d={}{}",
             enc_opt(chan),
             render_resp(resp),
             match (dl, stream) {
                 (None, _) => "E".to_string(),
                 (Some(_), Some(s)) => enc_hex(s),
                 (Some(_), None) => enc_hex(&[]),
-            }
+            },
+            if *evf != 0 { format!(" ef={}", evf) } else { String::new() }
         ),
         Op::Conc { upd, bops, sched } => format!(
             "conc s={} u={} b={}",
@@ -512,7 +515,8 @@ pub fn parse_op(line: &str, recompress: &dyn Fn(&[u8]) -> Vec<u8>) -> Option<Op>
         ["update", rest @ ..] => {
             let d = field(rest, "d")?;
             let dl = if d == "E" { None } else { Some(recompress(&dec_hex(d)?)) };
-            Some(Op::Update { chan: dec_opt(field(rest, "ch")?)?, resp: parse_resp(field(rest, "r")?)?, dl })
+            Some(Op::Update { chan: dec_opt(field(rest, "ch")?)?, resp: parse_resp(field(rest, "r")?)?, dl,
+                evf: field(rest, "ef").and_then(|s| s.parse().ok()).unwrap_or(0) })
         }
         ["dmg", "art-del", n] => Some(Op::Dmg(Damage::ArtDel(n.parse().ok()?))),
         ["dmg", "art-set", n, h] => Some(Op::Dmg(Damage::ArtSet(n.parse().ok()?, dec_hex(h)?))),
